@@ -34,7 +34,7 @@ def cfg_text(consts, invariants=("Holds", "TypeOK"), view=True, deadlock=True):
 
 # ---------------------------------------------------------------------------------------------- model configurations
 def _reader(tier, bug="none", **over):
-    c = dict(Depths=[1, 2, 3] if tier == "quick" else [1, 2, 3, 4], Buffereds=[False, True], Lmins=[1, 3],
+    c = dict(Depths=[1, 2] if tier == "quick" else [1, 2, 3, 4], Buffereds=[False, True], Lmins=[1, 2] if tier == "quick" else [1, 3],
              Addrs=[0, 1] if tier == "quick" else [0, 1, 2], Bug=bug)
     c.update(over)
     return c
@@ -42,14 +42,14 @@ def _reader(tier, bug="none", **over):
 
 def _writer(tier, bug="none", **over):
     # a buffered data FIFO shows a word two cycles after it was written: the memory must not strobe earlier (Lmin >= 2)
-    c = dict(Depths=[1, 2, 3] if tier == "quick" else [1, 2, 3, 4], Buffereds=[False, True], Lmins=[2, 3],
+    c = dict(Depths=[1, 2] if tier == "quick" else [1, 2, 3, 4], Buffereds=[False, True], Lmins=[2] if tier == "quick" else [2, 3],
              Addrs=[0, 1], Datas=[1, 2], Bug=bug)
     c.update(over)
     return c
 
 
 def _ctrl(tier, bug="none", **over):
-    c = dict(Depths=[2, 3] if tier == "quick" else [2, 3, 4], WDepths=[1, 2], RDepths=[1, 2], Lmins=[1] if tier == "quick" else [1, 3],
+    c = dict(Depths=[2, 3] if tier == "quick" else [2, 3, 4], WDepths=[1, 2] if tier != "quick" else [2], RDepths=[1, 2], Lmins=[1] if tier == "quick" else [1, 3],
              Base=4, Bug=bug)
     c.update(over)
     return c
@@ -70,24 +70,30 @@ def models(pid, tier):
     if pid == "C12":
         add("MC_DmaReader", _reader(tier), "D_DmaReader exhaustive (all depths x buffered x Lmin)")
         add("MC_DmaWriter", _writer(tier), "D_DmaWriter exhaustive (all depths x buffered x Lmin>=2)")
-        add("MC_DmaWriter", _writer(tier, Depths=[1, 2, 3], Buffereds=[False], Lmins=[1]), "D_DmaWriter unbuffered, Lmin=1")
+        if tier == "thorough":
+            add("MC_DmaWriter", _writer(tier, Depths=[1, 2, 3], Buffereds=[False], Lmins=[1]), "D_DmaWriter unbuffered, Lmin=1")
         one = dict(Depths=[2], Lmins=[1])
         add("MC_DmaReader", _reader(tier, "res_released_on_fill", Buffereds=[False], **one), "NEG D_DmaReader: reservation released when the word enters the FIFO", True)
-        add("MC_DmaReader", _reader(tier, "no_reservation", Buffereds=[False], **one), "NEG D_DmaReader: command issued without a reservation", True)
-        add("MC_DmaReader", _reader(tier, "last_from_offer", Buffereds=[True], **one), "NEG D_DmaReader: last taken from the sink instead of the reservation FIFO", True)
+        if tier == "thorough":
+            add("MC_DmaReader", _reader(tier, "no_reservation", Buffereds=[False], **one), "NEG D_DmaReader: command issued without a reservation", True)
+            add("MC_DmaReader", _reader(tier, "last_from_offer", Buffereds=[True], **one), "NEG D_DmaReader: last taken from the sink instead of the reservation FIFO", True)
         add("MC_DmaWriter", _writer(tier, "push_without_cmd", Buffereds=[False], Depths=[2], Lmins=[2]), "NEG D_DmaWriter: data enqueued without the command being accepted", True)
-        add("MC_DmaWriter", _writer(tier, "cmd_ignores_fifo", Buffereds=[False], Depths=[2], Lmins=[2]), "NEG D_DmaWriter: command offered although the data FIFO is full", True)
-        add("MC_DmaWriter", _writer(tier, Depths=[2], Buffereds=[True], Lmins=[1]), "NEG env: buffered writer FIFO with a memory strobing 1 cycle after the command", True)
+        if tier == "thorough":
+            add("MC_DmaWriter", _writer(tier, "cmd_ignores_fifo", Buffereds=[False], Depths=[2], Lmins=[2]), "NEG D_DmaWriter: command offered although the data FIFO is full", True)
+            add("MC_DmaWriter", _writer(tier, Depths=[2], Buffereds=[True], Lmins=[1]), "NEG env: buffered writer FIFO with a memory strobing 1 cycle after the command", True)
     else:
         add("MC_FifoCtrl", _ctrl(tier), "D_FifoCtrl exhaustive (depths x DMA FIFO depths)")
         add("MC_FifoCtrl", _ctrl(tier, "level_read_wins", Depths=[3], WDepths=[2], RDepths=[2], Lmins=[1]), "NEG D_FifoCtrl: level update race (read wins over simultaneous write)", True)
-        add("MC_FifoCtrl", _ctrl(tier, "inc_no_wrap", Depths=[3], WDepths=[2], RDepths=[2], Lmins=[1]), "NEG D_FifoCtrl: pointer does not wrap at depth", True)
-        add("MC_FifoCtrl", _ctrl(tier, "writable_off_by_one", Depths=[2], WDepths=[2], RDepths=[2], Lmins=[1]), "NEG D_FifoCtrl: writable while level = depth", True)
+        if tier == "thorough":
+            add("MC_FifoCtrl", _ctrl(tier, "inc_no_wrap", Depths=[3], WDepths=[2], RDepths=[2], Lmins=[1]), "NEG D_FifoCtrl: pointer does not wrap at depth", True)
+            add("MC_FifoCtrl", _ctrl(tier, "writable_off_by_one", Depths=[2], WDepths=[2], RDepths=[2], Lmins=[1]), "NEG D_FifoCtrl: writable while level = depth", True)
         add("MC_FifoMode", _mode(1, False), "D_FifoMode ratio 1, code as pinned")
-        add("MC_FifoMode", _mode(2, True), "D_FifoMode ratio 2 with the proposed repair (C13_fix.diff)")
-        add("MC_FifoMode", _mode(2, False), "DEFECT D_FifoMode ratio 2, code as pinned: TLC reproduces the genuine defect", True)
-        add("MC_FifoMode", _mode(2, True, "no_upidle"), "NEG D_FifoMode: back to bypass with a full word waiting in the pre-converter", True)
-        add("MC_FifoMode", _mode(1, False, "empty_off_by_one"), "NEG D_FifoMode: back to bypass with one word still in DRAM", True)
+        small = dict(dcap=1, post=2) if tier == "quick" else {}
+        add("MC_FifoMode", _mode(2, True, **small), "D_FifoMode ratio 2 with the proposed repair (C13_fix.diff)")
+        add("MC_FifoMode", _mode(2, False, **small), "DEFECT D_FifoMode ratio 2, code as pinned: TLC reproduces the genuine defect", True)
+        add("MC_FifoMode", _mode(2, True, "no_upidle", **small), "NEG D_FifoMode: back to bypass with a full word waiting in the pre-converter", True)
+        if tier == "thorough":
+            add("MC_FifoMode", _mode(1, False, "empty_off_by_one"), "NEG D_FifoMode: back to bypass with one word still in DRAM", True)
         if tier == "thorough":
             add("MC_FifoMode", _mode(1, False, dcap=3, pre=3, post=3), "D_FifoMode ratio 1, deeper FIFOs")
             add("MC_FifoMode", _mode(2, True, dcap=3), "D_FifoMode ratio 2 repaired, DCap 3")
